@@ -434,7 +434,9 @@ XIntIdx == 1..17            \* usable as untyped integer literals (18..21 exceed
 
 \* literal families: i n (small decimal n), p k (2^k), pm1 k (2^k - 1), pp1 k (2^k + 1),
 \* f 1|2|3 (1.0, 0.5, 2.5e3), r n (rune literal of code n), s 1 ("ab"), b 0|1 (false, true),
-\* x n (integer literal XVals[n]), xf n (float literal XVals[n] written with ".0")
+\* x n (integer literal XVals[n]), xf n (float literal XVals[n] written with ".0"),
+\* h n (the hexadecimal float literal 0x1p<n>: magnitudes far beyond float64, which an implementation
+\* must carry exactly through constant arithmetic - go/constant switches representation near 2^4096)
 LitValue(o, n) ==
     CASE o = "i"   -> IntC("int", "untyped", FromInt(n))
       [] o = "p"   -> IntC("int", "untyped", Pow2(n))
@@ -446,6 +448,7 @@ LitValue(o, n) ==
       [] o = "r"   -> IntC("rune", "untyped", FromInt(n))
       [] o = "x"   -> IntC("int", "untyped", XVals[n])
       [] o = "xf"  -> FloatC("untyped", XVals[n], 0)
+      [] o = "h"   -> FloatC("untyped", One, n)          \* 2^n written 0x1p<n>, |n| about 5000
       [] o = "s"   -> StrC("untyped", <<97, 98>>)
       [] o = "b"   -> BoolC("untyped", n = 1)
 
@@ -711,6 +714,30 @@ ShiftCountToks == { <<Lit("i", 0)>>, <<Lit("i", 1)>>, <<Lit("i", 3)>>, <<Lit("i"
                     <<Lit("f", 1)>>, <<Lit("f", 2)>>, <<Lit("f", 3)>>, <<Lit("r", 97)>>,
                     <<Lit("i", 3), Lit("f", 2), BinT("*")>>, <<Lit("i", 10), Lit("f", 2), BinT("*")>> }
 
+\* constant arithmetic whose OPERANDS are far beyond every machine type and whose results are small
+H(n) == Lit("h", n)
+HugeTrees ==
+    { <<H(5000), H(4990), BinT("/")>>,                                   \* 1024.0
+      <<H(5000), H(-4995), BinT("*")>>,                                  \* 32.0
+      <<H(-5000), H(-4990), BinT("/")>>,                                 \* 2^-10
+      <<H(5000), UnT("-"), H(4990), BinT("/")>>,                         \* -1024.0
+      <<H(5000), H(4999), BinT("-"), H(4990), BinT("/")>>,               \* 512.0
+      <<H(5000), H(5000), BinT("-")>>,                                   \* 0.0
+      <<H(5000), H(4998), BinT("/"), ConvT("int")>>,                     \* int 4
+      <<H(5000), H(4998), BinT("/"), ConvT("uint8")>>,
+      <<H(5000), H(4990), BinT("/"), ConvT("float32")>>,
+      <<H(5000), H(4999), BinT("/"), Lit("i", 2), BinT("==")>>,          \* true
+      <<H(5000), H(4990), BinT("<")>>,                                   \* false
+      <<H(-5000), Lit("f", 2), BinT("<")>>,                              \* true
+      <<H(-5000), H(4999), BinT("*"), Lit("f", 2), BinT("==")>>,         \* true
+      <<H(5000), ConvT("float64")>>,                                     \* overflows
+      <<H(5000), ConvT("int")>>,                                         \* overflows
+      <<H(-5000), ConvT("float64")>>,                                    \* underflows to 0
+      <<H(5000), H(4990), BinT("/"), Lit("i", 3), BinT("+")>>,           \* 1027.0
+      <<Lit("i", 3), H(-5000), H(4999), BinT("*"), BinT("*")>> }         \* 1.5
+HugeUseToks == { <<H(5000), H(4990), BinT("/")>>, <<H(5000), H(-4995), BinT("*")>>, <<H(-5000), H(4999), BinT("*")>>,
+                 <<H(5000), UnT("-"), H(4990), BinT("/")>>, <<H(5000)>>, <<H(-5000)>> }
+
 UseCase(ctx, k, toks) == [tier |-> "use", ctx |-> ctx, kind |-> k, toks |-> toks, specs |-> <<>>, place |-> ""]
 ExprCase(toks)        == [tier |-> "expr", ctx |-> "", kind |-> "", toks |-> toks, specs |-> <<>>, place |-> ""]
 BlockCase(specs, pl)  == [tier |-> "block", ctx |-> "", kind |-> "", toks |-> <<>>, specs |-> specs, place |-> pl]
@@ -720,6 +747,7 @@ UseCasesAll(z) ==
   \cup UNION {{UseCase(ctx, k, t) : ctx \in Ctxs, t \in FloatBoundaryToks(k)} : k \in FloatKinds}
   \cup {UseCase(ctx, k, t) : ctx \in RoundCtxs, k \in FloatKinds, t \in RoundToks}
   \cup {UseCase("conv", k, t) : k \in IntKinds, t \in BoundaryToks("int8") \cup BoundaryToks("uint64")}
+  \cup {UseCase(ctx, k, t) : ctx \in RoundCtxs, k \in {"float32", "float64", "int", "uint8"}, t \in HugeUseToks}
   \cup {UseCase("arraylen", "int", t) : t \in ArrayLenToks}
   \cup {UseCase("shiftcount", "uint", t) : t \in ShiftCountToks}
 
@@ -764,7 +792,7 @@ InitE1     == case \in {ExprCase(t) : t \in E1Trees(Lits)} /\ res = Pending
 MinKinds   == {"int8", "uint8", "int64", "float32"}
 InitE2     == case \in {ExprCase(t) : t \in E2Trees(IF Kds = "all" THEN Kinds ELSE IF Kds = "min" THEN MinKinds ELSE RedKinds)} /\ res = Pending
 InitE3     == case \in {ExprCase(t) : t \in E3Trees(Lits)} /\ res = Pending
-InitUse    == case \in UseCasesAll(Lits) /\ res = Pending
+InitUse    == case \in UseCasesAll(Lits) \cup {ExprCase(t) : t \in HugeTrees} /\ res = Pending
 InitBlocks == case \in BlockCases(Lits) /\ res = Pending
 Decide     == res.st = "?" /\ res' = Verdict(case) /\ UNCHANGED case
 
